@@ -261,6 +261,11 @@ def run(cx):
             if isinstance(anc, (ast.For, ast.While)):
                 r.fail("compile_upload/run-inside-loop", (mp, c), "a pio invocation sits inside a loop")
     ep = mp.func("ensure_pio")
+    # every call of ensure_pio probes: no normal exit without having invoked pio (a remembered "already checked" flag would
+    # turn a failed probe into a pass on the next call)
+    pc = CallCount(is_run).run_function(ep, (0, 0))
+    pexits = [s_ for _n, s_ in pc.ret] + ([pc.fall] if pc.fall is not None else [])
+    r.check(bool(pexits) and all(s_[0] >= 1 for s_ in pexits), "ensure_pio/probes-on-every-call", (mp, ep), f"probe invocations on the normal exits of ensure_pio: {pexits}; some path returns without running `pio --version`")
     tries = [n for n in walk_local(ep) if isinstance(n, ast.Try)]
     runs_e = [c for c in calls_in(ep) if is_run(c)]
     r.check(len(runs_e) >= 1, "ensure_pio/probes-pio", (mp, ep), "ensure_pio no longer invokes pio")
@@ -288,4 +293,6 @@ def run(cx):
     c13.rule_validate(cx, mp, "C12-VALIDATE")
     c14.rule_agree(cx, "C12-LIBS", libs_only=True)
     c13.rule_write(cx, mp, "C12-PROJECT")
+    c13.rule_project_eval(cx, mp, "C12-PROJECT-EVAL")
+    c13.rule_libs(cx, mp, "C12-INI-LIBS")
     c13.rule_ini(cx, mp, "C12-INI", all_boards)
